@@ -452,6 +452,10 @@ def gen_consts(repo):
     if not m:
         raise TranslateError("flow_level type")
     out += "Definition FLOW_LEVEL_MAX : N := %d.\n" % (2 ** int(m.group(1)[1:]) - 1)
+    m = re.search(r"const BLOCK_NESTING_MAX: usize = (\d+);", s)
+    if not m or not re.search(r"if self\.indents\.len\(\) >= BLOCK_NESTING_MAX \{\s*return Err\(", s):
+        raise TranslateError("block nesting limit (BLOCK_NESTING_MAX and its guard in roll_indent)")
+    out += "Definition BLOCK_NESTING_MAX : N := %s.\n" % m.group(1)
     m = re.search(r"if length \+ 1 > (\d+) \{", s)
     if not m:
         raise TranslateError("version digits")
